@@ -533,6 +533,22 @@ def run(rec, cfg):
                     pass
                 P.use_pretty_numbers(True)
                 rec.arm("helper:get_rand_term_templates:redrawn-exclusions")
+                # templates are plain mutable records: the ones a call returned are edited (the focus terms x, y become
+                # x^2, y^2; a variable renamed) and then passed as the exclusions of the next call -- what they say NOW counts
+                got = P.get_rand_term_templates(2, common_variables=True, exponent_probability=0)
+                P.get_rand_term_templates(1, exclude_like=got, common_variables=True, exponent_probability=0)      # (used once as they are)
+                for tpl in got:
+                    tpl.exponent = 2
+                random.seed(sd + 1)
+                P.get_rand_term_templates(2, exclude_like=got, common_variables=True, exponent_probability=1.0)
+                import copy as _copy
+
+                edited = [_copy.copy(tpl) for tpl in got]
+                for tpl in edited:
+                    tpl.exponent = None
+                    tpl.variable = "z" if tpl.variable != "z" else "x"
+                P.get_rand_term_templates(1, exclude_like=edited, common_variables=True, exponent_probability=0)
+                rec.arm("helper:get_rand_term_templates:edited-exclusions")
             except Exception:
                 pass
             for pretty in (True, False):
